@@ -22,6 +22,7 @@ import (
 	"errors"
 	"fmt"
 	"io"
+	"net"
 	"net/http"
 	"net/http/httptest"
 	"os"
@@ -45,6 +46,8 @@ import (
 	"github.com/luraproject/lura/v2/proxy"
 	krakendgin "github.com/luraproject/lura/v2/router/gin"
 	"github.com/luraproject/lura/v2/router/mux"
+	"github.com/luraproject/lura/v2/sd"
+	"github.com/luraproject/lura/v2/sd/dnssrv"
 	"github.com/luraproject/lura/v2/transport/http/client"
 	clientplugin "github.com/luraproject/lura/v2/transport/http/client/plugin"
 	"github.com/luraproject/lura/v2/transport/http/server"
@@ -91,7 +94,11 @@ type spec struct {
 	// (transport/http/client/plugin) with a plugin registered in this process that serves the
 	// request under the context it is handed
 	plugin bool
-	group  string
+	// the backends' hosts come from DNS SRV service discovery (sd/dnssrv) and the request arrives
+	// while a cache refresh is waiting for the resolver (which answers only after the request is
+	// over, or when the watchdog gives up)
+	dns   bool
+	group string
 	// how the case is run (not part of the input the model sees)
 	stress time.Duration // > 0: hammer one instance with this request for that long first (child process)
 	seqID  int           // > 0: step of an instance-reuse sequence (one instance, consecutive requests)
@@ -118,6 +125,9 @@ func (s spec) canon() string {
 	}
 	if s.plugin {
 		b.WriteString("|plugin")
+	}
+	if s.dns {
+		b.WriteString("|dns")
 	}
 	if s.seqID > 0 {
 		fmt.Fprintf(&b, "|seq%d.%d", s.seqID, s.step)
@@ -169,6 +179,9 @@ func (s spec) js() map[string]interface{} {
 	if s.plugin {
 		m["client_executor_plugin"] = true
 	}
+	if s.dns {
+		m["dns_srv_refresh_in_flight"] = true
+	}
 	if s.shadow != 0 {
 		m["built_by_shadow_factory_with_shadow_timeout_ns"] = int64(s.shadow) // -1: not configured
 	}
@@ -206,7 +219,7 @@ func (s spec) dangerous() bool {
 
 // what one pipeline instance is built from; steps of a reuse sequence must agree on it
 func (s spec) shapeKey() string {
-	k := fmt.Sprintf("%s|%v|%d|%v|%v|%d|%v", s.level, s.seq, s.T, s.http, s.noop, s.shadow, s.plugin)
+	k := fmt.Sprintf("%s|%v|%d|%v|%v|%d|%v", s.level, s.seq, s.T, s.http, s.noop, s.shadow, s.plugin) + fmt.Sprint(s.dns)
 	for _, a := range s.backends {
 		k += fmt.Sprintf("|%d", len(a))
 	}
@@ -490,6 +503,36 @@ type instance struct {
 	handler http.Handler
 	recs    sync.Map // case id -> *recorder
 	orphans atomic.Int64
+	// DNS SRV discovery: the resolver answers the constructor's query at once, the first refresh
+	// only when dnsRelease is closed, later ones at once again
+	dnsQueries  atomic.Int64
+	dnsInflight chan struct{} // closed when the first refresh is waiting for the resolver
+	dnsRelease  chan struct{}
+	dnsOnce     sync.Once
+}
+
+func (in *instance) lookupSRV(service, proto, name string) (string, []*net.SRV, error) {
+	addrs := []*net.SRV{{Target: "127.0.0.1.", Port: 8081, Weight: 1}}
+	if name == "first" {
+		return name, addrs, nil
+	}
+	if in.dnsQueries.Add(1) == 1 {
+		close(in.dnsInflight)
+	}
+	<-in.dnsRelease
+	return name, addrs, nil
+}
+
+// one subscriber per backend; the constructor's own query is told apart by the name it asks for
+func (in *instance) dnsSubscriber(*config.Backend) sd.Subscriber {
+	first := true
+	return dnssrv.NewDetailed("svc", func(service, proto, name string) (string, []*net.SRV, error) {
+		if first {
+			first = false
+			return in.lookupSRV(service, proto, "first")
+		}
+		return in.lookupSRV(service, proto, name)
+	}, 20*time.Millisecond)
 }
 
 func (in *instance) lookup(ids []string) *recorder {
@@ -675,6 +718,10 @@ func newInstance(s spec) *instance {
 		ep.Backend[i].ConcurrentCalls = len(a)
 	}
 	var factory proxy.Factory = proxy.NewDefaultFactory(in.backendFactory(s.http), logging.NoOp)
+	if s.dns {
+		in.dnsInflight, in.dnsRelease = make(chan struct{}), make(chan struct{})
+		factory = proxy.NewDefaultFactoryWithSubscriber(in.backendFactory(s.http), logging.NoOp, in.dnsSubscriber)
+	}
 	if s.shadow != 0 {
 		factory = proxy.NewShadowFactory(factory)
 	}
@@ -759,6 +806,17 @@ func runOn(in *instance, s spec) *result {
 	var ret time.Duration
 	var panicked string
 
+	if s.dns {
+		// the request is to arrive while a refresh is waiting for the resolver (bounded wait)
+		t := time.NewTimer(3 * time.Second)
+		select {
+		case <-in.dnsInflight:
+		case <-t.C:
+			res.tainted = true
+		}
+		t.Stop()
+		defer in.dnsOnce.Do(func() { close(in.dnsRelease) })
+	}
 	rec.t0 = time.Now()
 	pctx := base
 	if s.parent != 0 {
@@ -776,6 +834,10 @@ func runOn(in *instance, s spec) *result {
 	go func() {
 		if patiently(limit+watchdogAfter, stop) {
 			close(rec.release)
+			if s.dns {
+				// the request is still not over: whatever waits for the resolver is let go
+				in.dnsOnce.Do(func() { rec.released.Store(true); close(in.dnsRelease) })
+			}
 		}
 	}()
 	gaveUp := make(chan struct{})
@@ -826,6 +888,9 @@ func runOn(in *instance, s spec) *result {
 		res.ret = time.Since(rec.t0)
 		rec.markReturned()
 	}
+	if s.dns {
+		in.dnsOnce.Do(func() { close(in.dnsRelease) })
+	}
 	// "at once" must mean "well before every deadline" for the parts of the model that
 	// say what certainly happens
 	half := int64(s.minDeadline() / 2)
@@ -864,6 +929,9 @@ func luraGoroutines(ignore map[string]bool) []string {
 	for _, blk := range strings.Split(string(buf), "\n\n") {
 		if !strings.Contains(blk, "github.com/luraproject/lura/v2/") {
 			continue
+		}
+		if strings.Contains(blk, "sd/dnssrv.NewDetailedWithScheme.func1") {
+			continue // the refresh loop of a DNS SRV subscriber: started with the endpoint, not for a request
 		}
 		m := goroutineRe.FindStringSubmatch(blk)
 		if m == nil || ignore[m[1]] {
@@ -1587,6 +1655,9 @@ func emitCase(w *out.Writer, s spec, r obsData) {
 	if s.plugin {
 		w.Count("client-executor-plugin")
 	}
+	if s.dns {
+		w.Count("dns-srv-refresh-in-flight")
+	}
 	w.Add(term, js, "", s.canon(), nontrivial)
 }
 
@@ -1797,6 +1868,13 @@ func generate(cfg out.Config, r *rng.R) []spec {
 			add(spec{level: lv, T: T1, http: true, plugin: true, backends: cp(), group: "client-plugin"})
 		}
 		add(spec{level: "LProxy", T: T1, http: true, plugin: true, parent: T1 / 2, backends: cp(), group: "client-plugin"})
+	}
+	// DNS SRV discovery with a refresh waiting for the resolver while the request is served
+	for _, lv := range levels {
+		add(spec{level: lv, T: T1, dns: true, backends: [][]beh{{bAnswer}}, group: "dns-refresh"})
+		add(spec{level: lv, T: T1, dns: true, backends: [][]beh{{bAnswer}, {bAnswer}}, group: "dns-refresh"})
+		add(spec{level: lv, T: T1, dns: true, backends: [][]beh{{bAnswer}, {bHang}}, group: "dns-refresh"})
+		add(spec{level: lv, T: T1, dns: true, backends: [][]beh{{bAnswer, bAnswer}}, group: "dns-refresh"})
 	}
 	add(spec{level: "LProxy", T: T1, http: true, plugin: true, seq: true, backends: [][]beh{{bAnswer}, {bHang}}, group: "client-plugin"})
 	add(spec{level: "LMux", T: T1, http: true, plugin: true, seq: true, backends: [][]beh{{bFail}, {bAnswer}}, group: "client-plugin"})
